@@ -251,3 +251,52 @@ func VerifTierCWriterFault(tmpl string) {
 	verif.Assert("C12:writer-fault-is-reported", w.failed && err != nil)
 	verif.Event("fault", w.failed, err != nil)
 }
+
+// VerifTierCEquiv: instances of the LOADED knowledge base behave on every fact set exactly like instances of the stored
+// one (also after storing and loading again): every rule of every template of the set is evaluated and executed on copies
+// of the same symbolic facts in both, and a short Execute is compared as well.
+func VerifTierCEquiv(set string) {
+	ts := tbSets[set]
+	tmpl := ts[verif.Choice("template", len(ts))]
+	L := "C12:equivalence@" + tmpl + ":"
+	lib := zzkb.LoadLibrary(tmpl)
+	w := &vcWriter{}
+	if err := lib.StoreKnowledgeBaseToWriter(w, "T", "1"); err != nil {
+		verif.Assert(L+"store-succeeds", false)
+		return
+	}
+	lib2 := ast.NewKnowledgeLibrary()
+	kb2, err, pan := loadKB(&vcReader{data: w.buf, limit: len(w.buf)}, true, lib2)
+	verif.Assert(L+"load-succeeds", err == nil && !pan && kb2 != nil)
+	if err != nil || pan || kb2 == nil {
+		return
+	}
+	// second generation
+	w2 := &vcWriter{}
+	if err := lib2.StoreKnowledgeBaseToWriter(w2, "T", "1"); err != nil {
+		verif.Assert(L+"second-store-succeeds", false)
+		return
+	}
+	lib3 := ast.NewKnowledgeLibrary()
+	kb3, err3, pan3 := loadKB(&vcReader{data: w2.buf, limit: len(w2.buf)}, true, lib3)
+	verif.Assert(L+"second-load-succeeds", err3 == nil && !pan3 && kb3 != nil)
+	verif.Reach("tierC:equiv-loaded")
+	f0 := newFact("F", 0)
+	names := sortedRuleNames(lib.GetKnowledgeBase("T", "1"))
+	for _, r := range names {
+		a, ok := c07Run(lib, "T", r, f0)
+		verif.Assert(L+r+":instance-of-the-stored-knowledge-base", ok)
+		b, ok2 := c07Run(lib2, "T", r, f0)
+		verif.Assert(L+r+":instance-of-the-loaded-knowledge-base", ok2)
+		if ok && ok2 {
+			c07Same(L+r+":loaded-vs-stored:", a, b)
+		}
+		if err3 == nil && !pan3 && kb3 != nil {
+			c, ok3 := c07Run(lib3, "T", r, f0)
+			verif.Assert(L+r+":instance-of-the-twice-loaded-knowledge-base", ok3)
+			if ok && ok3 {
+				c07Same(L+r+":twice-loaded-vs-stored:", a, c)
+			}
+		}
+	}
+}
